@@ -299,7 +299,12 @@ def case_nematic(ctx, rng, wd):
         # history: the neighbour list behind the SAME file name is regenerated (a scan over coarse-graining lengths writes every list to
         # neighborlist.dat) and the same object is asked again: the answer must follow the list the file holds now
         lists2 = [random_lists(rng, N) for _ in range(T)]
+        st_ = os.stat(fn)
         write_nl(fn, lists2)
+        if rng.random() < 0.5:
+            # ... with the time stamp of the old file preserved (cp -p, restored from a backup): the content decides
+            os.utime(fn, ns=(st_.st_atime_ns, st_.st_mtime_ns))
+            ctx.count("file_replaced_with_preserved_time_stamp")
         ok5, res5 = ctx.call(key + "/file_rewritten", obj.tensor, 2, fn, 30, eig, "nem5", data=info)
         if ok5:
             Q5 = np.empty_like(Qraw)
